@@ -79,8 +79,6 @@ static int fs_main(int argc, char **argv, char **envp) {
       if (o >= 0) { dup2(o, 1); close(o); }
       struct rlimit rl = { 256u << 20, 256u << 20 };   /* a run-away writer dies of SIGXFSZ */
       setrlimit(RLIMIT_FSIZE, &rl);
-      struct rlimit nf = { 65536, 65536 };             /* a fixed, generous descriptor limit */
-      setrlimit(RLIMIT_NOFILE, &nf);
       return real_main((int)n + 1, av, envp);          /* back into __libc_start_main -> exit() */
     }
     free(msg);
